@@ -188,6 +188,7 @@ func main() {
 	nrand := flag.Int("rand", 60, "random lane tuples per operation")
 	nconst := flag.Int("const", 40, "calls per operation variant that also run in constant mode")
 	ex8 := flag.Bool("ex8", false, "exhaustive operand pairs for 8-bit lane operations")
+	extN := flag.Int("ext", 0, "sample size of the extended boundary set per operand position (0 = all)")
 	only := flag.String("only", "", "restrict to operations whose name contains this")
 	flag.Parse()
 	ctx := context.Background()
@@ -242,7 +243,7 @@ func main() {
 			if len(imms) > 1 { // lane-indexed variants share the budget
 				b, nr = b/len(imms)+8, nr/len(imms)+4
 			}
-			tuples := laneTuples(rng, ks, b*maxLanes(ks), nr*maxLanes(ks), *ex8)
+			tuples := laneTuples(rng, ks, b*maxLanes(ks), nr*maxLanes(ks), *ex8, *extN*maxLanes(ks))
 			calls := pack(rng, ks, tuples)
 			v := &Variant{Op: op, Imm: imm, Calls: calls, Const: make([]bool, len(calls))}
 			v.ImmZ = new(big.Int)
